@@ -20,7 +20,15 @@ CFG = {
                    "there, plus chunk 0 (loaded without verification by the constructor: finding D2, kept) (flush_prefix_auth); the archive "
                    "writer model only appends to its block stream and every append executed so far sits in it as a complete FileContent block "
                    "(wstep_out_prefix, appended_blocks_present), so without compression the flushed encrypted bytes decrypt to a block stream "
-                   "holding every appended byte in complete blocks (C14_flush_durable_enc_partial). Correspondence: the rows of the real repair "
+                   "holding every appended byte in complete blocks (C14_flush_enc_layer_output). END TO END, one theorem per layer combination "
+                   "(props/C14.v part 4: C14_flush_durable_plain / _enc / _enc_auth / _comp / _comp_enc / _comp_enc_auth): for ANY call list "
+                   "pre ++ flush :: post with the calls before the flush free of short sources, the destination bytes when that flush returned, "
+                   "read through ANY source behaving as a cursor over them and the matching fail-safe readers, make repair return Ok with, under "
+                   "every started name, EXACTLY the bytes appended before the flush (no encryption / unauthenticated), resp. exactly the content "
+                   "bytes in the prefix covered by the completed encryption chunks (authenticated). For the compressed combinations the repair "
+                   "loop runs over the model of CompressionLayerFailSafeReader as a stream (FsCompStream.FsComp) under the DecoderLaws; "
+                   "RepairMask.repair_mask shows that a source ending with an error (UnexpectedEof inside a brotli stream) yields the same "
+                   "output archive and unfinished list as one ending with Ok(0) - only the stopping status differs. Correspondence: the rows of the real repair "
                    "(status, unfinished, re-read of the repaired archive) of the flushed bytes equal repair_plain / repair_enc (concrete AES-GCM in "
                    "Coq) for layer-less and encrypt-only archives. Oracle (all layer combinations): flush returns after the header reached the "
                    "destination; unauthenticated repair of the flushed bytes succeeds and every file's recovered bytes start with what was appended "
@@ -31,10 +39,12 @@ CFG = {
     "assumptions": ["compression: the encoder side of flush (CompressorWriter::flush emits a flush point making all input so far decodable) is the hypothesis D c' = written, covered by the oracle only",
                     
         "fewer than 2^32 encryption chunks (current_ctr is a u32; beyond that the writer panics in debug builds: Crash 228 in the model)",
-        "the step from 'the fail-safe top layer delivers w_out, which holds the complete blocks' to 'repair recovers these bytes' is the repair "
-        "work package's theorem (repair of any prefix of a block stream recovers every complete content block); here it is covered by the "
-        "correspondence rows and the oracle",
-        "the compression layer (brotli flush semantics, fail-safe decompressor: D4-D6 fixed) is NOT modelled here: oracle only",
+        "compressed combinations: the ENCODER side of flush is the explicit premise `fs_spec D bs w = w_out s` of C14_flush_durable_comp* (what the "
+        "compression layer had been handed is decodable from what it had emitted; derived from `D c' = written` by C14_flush_premise_from_blocks); "
+        "brotli's decoder enters through the DecoderLaws; both are observed by job c02-comp, not proved",
+        "the calls before the flush must be clean: no append from a short source (D8: it leaves a content block whose announced length is wrong) "
+        "and no finalize; sizes < 2^64, names valid UTF-8, fewer than 2^64 files (what the types guarantee)",
+        "with compression the stopping status of repair is not stated (the fail-safe decompressor ends a cut stream with an error inside a brotli stream)",
         "the destination accepts every write in the c14 cases (C13 lifts this: sink independence)",
     ],
 }
